@@ -11,7 +11,7 @@ objects.  (c) direct oracles on the implementation: ops are permutations consist
 a returned (g, mapping) transforms self into other exactly; a pair is returned iff some op of G maps
 the occupations (brute force over G).
 """
-import ast, os, sys, subprocess, warnings
+import ast, os, sys, subprocess, time, warnings
 from fractions import Fraction
 import numpy as np
 from props import c27zoo
@@ -523,15 +523,18 @@ def _configs(ctx, rng, nconf, maxsites):
 def _run(ctx, nconf, npairs, maxsites):
     rng = ctx.rng
     guard = None
+    t_start = time.time()
     lines, checks = [], []
     del GEOM_SESSIONS[:]
     for (name, crys, S, inter, nsol, solnames) in _configs(ctx, rng, nconf, maxsites):
-        if ctx.budget_left() < 40: break
+        if time.time() - t_start > (60 if ctx.quick else 900): break
         sup, nwarn = c27zoo.make_supercell(crys, S, inter, nsol)
         ctx.count('cfg:' + name); ctx.count('cfg:Nsolute=%d' % nsol); ctx.count('cfg:interstitial' if inter else 'cfg:no-interstitial')
         if nwarn: ctx.count('cfg:symmetry-broken-by-supercell')
         _geometry_session(ctx, name, crys, S, sup, nwarn, lines, checks)
         _equiv_session(ctx, name, crys, S, inter, nsol, solnames, sup, lines, checks, npairs)
+    if ctx.evaluations == 0:
+        raise RuntimeError('C27: no case was evaluated (generation produced nothing)')
     got = ctx.lean(DRIVER, lines, timeout=1200)
     for line, ans, chk in zip(lines, got, checks):
         _check(ctx, line, ans, chk, guard)
